@@ -817,6 +817,23 @@ class TenSym(PySym):
             return (list if cn == "list" else tuple)(self.iterate(A(0)))
         if cn in ("float", "np.float64", "np.float32", "np.double"):
             return A(0)
+        if cn in ("int", "np.ceil", "np.floor", "math.ceil", "math.floor"):
+            v = self.lift(A(0))
+            if isinstance(v, int):
+                return v
+            c = v.const_value() if isinstance(v, Rat) else None
+            if c is None:
+                raise Unsupported("%s of a symbolic value" % cn)
+            import math
+            r = math.ceil(c) if cn.endswith("ceil") else math.floor(c) if cn.endswith("floor") else int(c)
+            return r if cn in ("int", "math.ceil", "math.floor") else Rat(Poly.const(r))
+        if cn in ("np.power",):
+            e = self.lift(A(1))
+            return self.elementwise(lambda x: PySym.binop(self, ast.Pow(), x, e, n), A(0))
+        if cn in ("np.unique",):
+            t = self.to_ten(A(0))
+            vals = sorted({self.concrete(x) for x in t.data})
+            return Ten((len(vals),), [Rat(Poly.const(v)) for v in vals])
         if cn in ("isinstance",):
             v = A(0)
             tn = src(n.args[1])
